@@ -341,18 +341,71 @@ def run(ctx):
                         for _, names, kw, _l in calls)
         ob.require(excl or validated, 'an existing file can be overwritten: export_to_file does not create exclusively and --file is '
                    'not validated by file_', etf.where)
-        # export_wallet writes the JSON of the data it was given
+    check_sinks(ctx, 'C20.SINKS')
+    # "filtered when paranoia mode is on": the filtered value must survive the sinks' falsy-data fall-back
+    from .C15 import run as _c15run
+    sub = ctx.__class__('C20', ctx.tier, ctx.p, ctx.seed)
+    _c15run(sub)
+    for o in sub.obligations:
+        if o.rule == 'C15.FILTER':
+            o.rule = 'C20.FILTERED(=C15.FILTER)'
+            ctx.obligations.append(o)
+
+
+def check_sinks(ctx, rule):
+    """export_wallet / pprint emit exactly the JSON of the data they are given (the fall-back to generate() is taken
+    only when no data is given)."""
+    p = ctx.p
+    fexp = p.get_function('paper_wallet.PaperWallet.export_wallet')
+    with ctx.obligation(rule, 'PaperWallet.export_wallet / pprint', None, fexp.where) as ob:
         summ = dict(X.DEFAULT_SUMMARIES)
         rec = []
         summ['paper_wallet.PaperWallet.export_to_file'] = lambda ev_, fi, env, facts: (rec.append(dict(env)) or T.NONE, facts)
-        e2 = Evaluator(p, 'ecdsa', summaries=summ)
+        summ['paper_wallet.PaperWallet.json'] = lambda ev_, fi, env, facts: (T.raw_op('JSONCALL', *[env[q] for q in fi.params]), facts)
+        summ['paper_wallet.PaperWallet.generate'] = lambda ev_, fi, env, facts: (T.raw_op('GENERATE', *[env[q] for q in fi.params]), facts)
+        T.STR_OPS.add('JSONCALL')
         data, path = S('data', type='dict'), S('path', type='str')
         w = S('wallet', cls=PW)
-        e2.call_function('paper_wallet.PaperWallet.export_wallet', [w], {'file_path': path, 'data': data},
-                         facts=Facts().add(T.truth(data)))
-        ok = len(rec) == 1 and rec[0].get('file_path') == path and rec[0].get('contents') == T.raw_op('JSON', data, T.const(4))
-        ob.require(ok, 'export_wallet writes json.dumps(data, indent=4) to the requested path', p.get_function('paper_wallet.PaperWallet.export_wallet').where,
+        nonempty = Facts().add(T.truth(data))
+        e2 = Evaluator(p, 'ecdsa', summaries=summ)
+        e2.call_function('paper_wallet.PaperWallet.export_wallet', [w], {'file_path': path, 'data': data}, facts=nonempty)
+        ok = len(rec) == 1 and rec[0].get('file_path') == path and rec[0].get('contents') == T.raw_op('JSONCALL', w, data, T.const(4))
+        ob.require(ok, 'export_wallet(file_path, data=d) must write json(data=d, indent=4) to file_path (the data it is given, '
+                   'not a freshly generated wallet)', fexp.where,
                    found=[{k: T.show(v, maxdepth=3) for k, v in r.items()} for r in rec])
-        e3 = Evaluator(p, 'ecdsa')
-        e3.call_function('paper_wallet.PaperWallet.pprint', [w], {'data': data}, facts=Facts().add(T.truth(data)))
-        ob.require(any(e[0] == 'stream-write' for e in e3.effects), 'pprint writes to sys.stdout', pprint.where)
+        fpp = p.get_function('paper_wallet.PaperWallet.pprint')
+        e3 = Evaluator(p, 'ecdsa', summaries=summ)
+        e3.call_function('paper_wallet.PaperWallet.pprint', [w], {'data': data}, facts=nonempty)
+        writes = [e for e in e3.effects if e[0] == 'stream-write' and e[3].startswith('sys.stdout')]
+        ok = bool(writes) and writes[0][4] == (T.raw_op('JSONCALL', w, data, T.const(4)),)
+        ob.require(ok, 'pprint(data=d) must write json(data=d, indent=4) to standard output', fpp.where,
+                   found=[tuple(T.show(x, maxdepth=3) for x in e[4]) for e in writes])
+        ob.require(not [e for e in e3.effects if e[0] == 'stream-write' and not e[3].startswith('sys.stdout')],
+                   'pprint writes only to standard output', fpp.where)
+        # json(data) renders the data it is given
+        summ2 = dict(X.DEFAULT_SUMMARIES)
+        summ2['paper_wallet.PaperWallet.generate'] = summ['paper_wallet.PaperWallet.generate']
+        e4 = Evaluator(p, 'ecdsa', summaries=summ2)
+        ind = S('indent', type='int')
+        v, _ = e4.call_function('paper_wallet.PaperWallet.json', [w], {'data': data, 'indent': ind}, facts=nonempty)
+        same_term(ob, v, T.raw_op('JSON', data, ind), 'json(data=d, indent=n) is json.dumps(d, indent=n)', p.get_function('paper_wallet.PaperWallet.json').where)
+        # the CLI never relies on the fall-back: an EMPTY filtered result must not turn into a full wallet
+        v, _ = e4.call_function('paper_wallet.PaperWallet.json', [w], {'data': T.dct([]), 'indent': ind})
+        ob.note('json({}) falls back to generate(): %s' % (T.contains(v, lambda x: T.is_op(x, 'GENERATE')),))
+
+
+def sinks_fall_back_on_empty(p):
+    """Do pprint / export_wallet / json replace an empty (falsy) data mapping by a freshly generated wallet?"""
+    summ = dict(X.DEFAULT_SUMMARIES)
+    rec = []
+    summ['paper_wallet.PaperWallet.export_to_file'] = lambda ev_, fi, env, facts: (rec.append(dict(env)) or T.NONE, facts)
+    summ['paper_wallet.PaperWallet.generate'] = lambda ev_, fi, env, facts: (T.raw_op('GENERATE', *[env[q] for q in fi.params]), facts)
+    w = S('wallet', cls=PW)
+    ev = Evaluator(p, 'ecdsa', summaries=summ)
+    ev.call_function('paper_wallet.PaperWallet.export_wallet', [w], {'file_path': S('path', type='str'), 'data': T.dct([])})
+    hit = any(T.contains(v, lambda x: T.is_op(x, 'GENERATE')) for r in rec for v in r.values())
+    ev.call_function('paper_wallet.PaperWallet.pprint', [w], {'data': T.dct([])})
+    for e in ev.effects:
+        if e[0] == 'stream-write' and any(T.contains(a, lambda x: T.is_op(x, 'GENERATE')) for a in e[4]):
+            hit = True
+    return hit
